@@ -30,3 +30,24 @@ build_harness() {
     rm -f "$log"
     return 0
 }
+
+# Second build of the same monitors: release profile plus integer-overflow checks (rustc's built-in arithmetic
+# sanitizer: an overflowing +, -, *, <<, negation or cast-free index computation panics instead of wrapping).
+build_harness_ovf() {
+    ensure_lock
+    mkdir -p "$VERIF_DIR/target-ovf"
+    local log="$VERIF_DIR/target-ovf/build.$$.log"
+    (
+        flock 9
+        RUSTFLAGS="-C overflow-checks=on" cargo build --release --offline --manifest-path "$VERIF_DIR/harness/Cargo.toml" --target-dir "$VERIF_DIR/target-ovf" >"$log" 2>&1
+    ) 9>"$VERIF_DIR/target-ovf/.build.lock"
+    local rc=$?
+    if [ $rc -ne 0 ]; then
+        echo "HARNESS-ERROR: building the overflow-checked monitors against /repo failed (no verdict):" >&2
+        grep -E "^(error|warning: unused)" -A8 "$log" | head -60 >&2
+        rm -f "$log"
+        return 2
+    fi
+    rm -f "$log"
+    return 0
+}
